@@ -1458,7 +1458,17 @@ def m_prim_default(ex, st, a, dst, callee):
     return None
 
 
+def m_int_minmax(ex, st, a, dst, callee):
+    m = re.match(r"^<([ui])(?:\d+|size) as Ord>::(min|max)$", callee)
+    if not m or not (z3.is_bv(a[0]) and z3.is_bv(a[1])):
+        return None
+    signed, lo = m.group(1) == "i", m.group(2) == "min"
+    lt = (a[0] < a[1]) if signed else z3.ULT(a[0], a[1])
+    return [(z3.If(lt, a[0], a[1]) if lo else z3.If(lt, a[1], a[0]), [], None)]
+
+
 STD_CMP_MODELS = [
+    (r"^<[ui](?:\d+|size) as Ord>::(min|max)$", m_int_minmax),
     (r"<\w+ as Default>::default$", m_prim_default),
     (r"num::<impl [ui]\d+>::to_le_bytes$", m_to_le_bytes),
     (r"num::<impl [ui]\d+>::from_le_bytes$", m_from_le_bytes),
